@@ -74,6 +74,18 @@ def showOut (m? : Option Method) : Out → String
 /-- Decode one line into an operation (or a universe definition). -/
 def step (useSpec : Bool) (F : Facts) (st : St) (line : String) : St × String :=
   match words line with
+  | ["K", s1, p1, o1, s2, p2, o2] =>
+    -- two different values the generator found under one UUID: do their pre-images coincide (a listed class)?
+    let r : Option Bool := do
+      let a : Triple := ⟨← parseNode (fields s1), ← parsePred (fields p1), ← parseObj (fields o1)⟩
+      let b : Triple := ⟨← parseNode (fields s2), ← parsePred (fields p2), ← parseObj (fields o2)⟩
+      let va ← a.view false 0 [] [] [] []
+      let vb ← b.view false 1 [] [] [] []
+      pure (va.key == vb.key)
+    match r with
+    | some true => (st, "collide")
+    | some false => (st, if useSpec then "collide" else "distinct")   -- the specification has no UUIDs
+    | none => (st, "bad-op")
   | ["T", tid, s, p, o, pstr, str, sstr, ostr] =>
     let r : Option (Nat × Option TView) := do
       let id ← tid.toNat?
